@@ -789,6 +789,9 @@ func genHistory(g *vf.Rng, o histOpts) (calls []hcall, base string, dist map[str
 					undefined = append(undefined, hot)
 				}
 				nref := 6 + g.Intn(14)
+				if g.Intn(6) == 0 {
+					nref = 30 + g.Intn(60)
+				}
 				for i := 0; i < nref; i++ {
 					if g.Intn(3) == 0 {
 						h.add(hcall{Op: "ins", M: emByName["JMP_abs"], S: hot})
